@@ -7,10 +7,11 @@ Space   TEMPLATES (written out below) x case re-spellings of their foldable toke
         followed by the fixed POSTLUDE (probes, always in the same spelling, that make session variables and an open
         transaction observable).
 
-        quick    per template: all-lower, ALL-UPPER, Capitalised, aLtErNaTiNg, every single token in each of the
-                 three non-lower forms; every single marked name written as "UPPER", and all of them.
-        thorough additionally all 2^t lower/UPPER assignments for t <= 10 foldable tokens, single + pair flips above;
-                 every subset of quoted names (<= 6 names; pairs above), also with the rest in upper case.
+        quick    per template: all-lower, ALL-UPPER, Capitalised, aLtErNaTiNg, every single token in UPPER;
+                 every single marked name written as "UPPER", and all of them.
+        thorough additionally every single token Capitalised / aLtErNaTiNg, all 2^t lower/UPPER assignments for
+                 t <= 10 foldable tokens, single + pair flips above; every subset of quoted names (<= 6 names; pairs
+                 above), also with the rest in upper case.
 
 Clauses
   C02.respell.<facet>   the complete observable outcome of a statement is the same for every case spelling
@@ -26,8 +27,8 @@ Clauses
                         dictkeys, status (of the template's own result, where the template states an expectation),
                         conn (conn.database / conn.schema), is.tables, is.columns, is.views, is.databases, describe,
                         select (description + DictCursor keys of SELECT * per object), show.schemas, show.objects,
-                        show.tables, show.pk — swept after prelude + template + postlude in the four whole-statement
-                        spellings.
+                        show.tables, show.pk — swept after prelude + template + postlude in whole-statement
+                        spellings (see sweep_labels).
 
 Not demanded
   * that "t" and T are distinct objects (DuckDB is case-insensitive; the statement does not claim distinctness);
@@ -351,28 +352,104 @@ def model_after(tpl: T | None, succeeded: bool = True):
     return cat
 
 
-def execute(tid: str, sql: str, sweep: bool = False):
-    """Fresh instance, PRELUDE, the statement, POSTLUDE [, reporting sweep] -> (outcome by facet, sweep findings)."""
-    from snowflake.connector.cursor import DictCursor
+# kinds whose statements leave the database, the session context and the variables as they are: their spellings may
+# share one instance, as long as the ground truth proves after every execution that nothing changed (DESIGN 2.2 (i))
+SHARED_KINDS = {"SELECT", "SHOW", "DESCRIBE", "IS_QUERY", "FUNCTION", "ERROR"}
+PK_ROWS = 'select * from "DB1"."S1"."PK" order by all'
+PK_CLEAN = 'delete from "DB1"."S1"."PK" where "ID" = 99'
 
-    from mc.util import fresh
 
-    tpl = TPL[tid]
-    with fresh(database=DB, schema=SCHEMA) as (fs, conn):
-        cur = conn.cursor(DictCursor)
+class Session:
+    """A fresh in-memory instance with one connection, after the PRELUDE."""
+
+    def __init__(self, probe_base: bool):
+        import fakesnow.instance as inst
+        from snowflake.connector.cursor import DictCursor
+
+        self.fs = inst.FakeSnow()
+        self.conn = self.fs.connect(database=DB, schema=SCHEMA)
+        cur = self.conn.cursor(DictCursor)
         for p, _fx in PRELUDE:
             cur.execute(p)
-        o = _exec(cur, sql, tpl.ordered)
-        o["context"] = _context(conn)
-        o["state"] = _state(fs)
+        self.base = None
+        if probe_base:
+            # what the pristine instance looks like: used to prove that a shared instance is still pristine
+            st, cx = _state(self.fs), _context(self.conn)
+            post = self.postlude()
+            self.base = (st, cx, post)
+            if not self.clean() or _state(self.fs) != st:
+                raise core.HarnessError("postlude could not be undone on a pristine instance")
+
+    def raw(self):
+        from mc import observe
+
+        return observe.raw(self.fs)
+
+    def pk_rows(self):
+        try:
+            return tuple(map(repr, self.raw().execute(PK_ROWS).fetchall()))
+        except Exception as e:  # noqa: BLE001
+            return ("<err>", type(e).__name__)
+
+    def postlude(self):
+        from snowflake.connector.cursor import DictCursor
+
         post = []
-        pc = conn.cursor(DictCursor)
+        pc = self.conn.cursor(DictCursor)
         for p in POSTLUDE:
             r = _exec(pc, p, False)
             post.append((r["status"], r["rows"]))
-        o["post"] = (tuple(post), _state(fs), _context(conn))
-        findings = sweep_reports(conn, tpl, o["status"][0] == "ok") if sweep else None
-    return o, findings
+        return (tuple(post), self.pk_rows(), _context(self.conn))
+
+    def clean(self) -> bool:
+        """remove the postlude's probe row (harness side, raw DuckDB); False if that is not possible"""
+        try:
+            self.raw().execute(PK_CLEAN)
+            return True
+        except Exception:  # noqa: BLE001
+            return False
+
+    def run(self, tpl: T, sql: str, sweep: bool):
+        from snowflake.connector.cursor import DictCursor
+
+        cur = self.conn.cursor(DictCursor)
+        o = _exec(cur, sql, tpl.ordered)
+        o["context"] = _context(self.conn)
+        o["state"] = _state(self.fs)
+        o["post"] = self.postlude()
+        findings = sweep_reports(self.conn, tpl, o["status"][0] == "ok") if sweep else None
+        return o, findings
+
+    def still_pristine(self, o) -> bool:
+        return (
+            self.base is not None
+            and (o["state"], o["context"], o["post"]) == self.base
+            and self.clean()
+            and _state(self.fs) == self.base[0]
+        )
+
+    def close(self):
+        import contextlib
+
+        with contextlib.suppress(Exception):
+            self.fs.duck_conn.close()
+
+
+def execute(tid: str, sql: str, sweep: bool = False, sess: Session | None = None):
+    """PRELUDE on a fresh instance (or a shared instance proved pristine), the statement, POSTLUDE [, reporting sweep]
+    -> (outcome by facet, sweep findings, the session if it may be used again else None)."""
+    tpl = TPL[tid]
+    shared = tpl.kind in SHARED_KINDS
+    if sess is None:
+        sess = Session(probe_base=shared)
+    keep = False
+    try:
+        o, findings = sess.run(tpl, sql, sweep)
+        keep = shared and not sweep and sess.still_pristine(o)
+    finally:
+        if not keep:
+            sess.close()
+    return o, findings, (sess if keep else None)
 
 
 def diff_facets(ref, o):
@@ -558,8 +635,17 @@ def sweep_reports(conn, tpl: T, succeeded: bool = True):
 
 
 # ---- work items --------------------------------------------------------------------------------------------------------
-CHUNK = 12
+CHUNK = {True: 40, False: 12}  # spellings per work item (shared instance / fresh instance per spelling)
 CANONICAL = ("all:l", "all:u", "all:c", "all:a")
+
+
+def sweep_labels(tpl: T, tier: str):
+    """spellings after which the reporting surfaces are swept: the whole-statement forms (quick: ALL-UPPER and
+    aLtErNaTiNg, thorough: all four) where the statement changes the state; one (ALL-UPPER) where it only reads the
+    prelude's state"""
+    if tpl.kind in SHARED_KINDS:
+        return ("all:u",)
+    return ("all:u", "all:a") if tier == "quick" else CANONICAL
 
 
 def plan(tier):
@@ -576,13 +662,14 @@ def plan(tier):
         for lab, _f, text in case:
             if text not in seen:
                 seen.add(text)
-                texts.append((text, lab in CANONICAL))
+                texts.append((text, lab in sweep_labels(tpl, tier)))
         for _lab, _form, _qs, text in quote:
             if text not in seen:
                 seen.add(text)
                 texts.append((text, False))
-        for i in range(0, len(texts), CHUNK):
-            items.append((tpl.id, texts[i : i + CHUNK]))
+        n = CHUNK[tpl.kind in SHARED_KINDS]
+        for i in range(0, len(texts), n):
+            items.append((tpl.id, texts[i : i + n]))
     return items, cata
 
 
@@ -592,30 +679,36 @@ def work(item, acc: core.Acc, tier):
     tid, texts = item
     tpl = TPL[tid]
     ref_text = R.render(R.lex(tpl.sql), "l")
-    ref, _ = execute(tid, ref_text)
+    ref, _, sess = execute(tid, ref_text)
     acc.count("evaluations")
     acc.count("reference_reruns")
     out = []
-    for text, do_sweep in texts:
-        o, findings = execute(tid, text, sweep=do_sweep)
-        acc.count("evaluations")
-        acc.count("spellings_executed")
-        if do_sweep:
-            acc.count("sweeps")
-        df = diff_facets(ref, o)
-        acc.obs((tid, text, core.h(tuple(o[f] for f in FACETS)), core.h(findings)))
-        acc.outcome((tid, core.h(tuple(o[f] for f in FACETS))))
-        detail = None
-        if df:
-            f0 = df[0]
-            a, b = _first_diff(ref[f0], o[f0])
-            detail = {"facets": list(df), "reference": a, "observed": b}
-            if o["status"][0] == "err":
-                detail["message"] = o.get("msg")
-            if ref["status"][0] == "err":
-                detail["reference_message"] = ref.get("msg")
-        own = own_result_findings(tpl, o)
-        out.append((text, df, detail, findings, own, o["status"]))
+    try:
+        for text, do_sweep in texts:
+            if sess is None:
+                acc.count("instances")
+            o, findings, sess = execute(tid, text, sweep=do_sweep, sess=sess)
+            acc.count("evaluations")
+            acc.count("spellings_executed")
+            if do_sweep:
+                acc.count("sweeps")
+            df = diff_facets(ref, o)
+            acc.obs((tid, text, core.h(tuple(o[f] for f in FACETS)), core.h(findings)))
+            acc.outcome((tid, core.h(tuple(o[f] for f in FACETS))))
+            detail = None
+            if df:
+                f0 = df[0]
+                a, b = _first_diff(ref[f0], o[f0])
+                detail = {"facets": list(df), "reference": a, "observed": b}
+                if o["status"][0] == "err":
+                    detail["message"] = o.get("msg")
+                if ref["status"][0] == "err":
+                    detail["reference_message"] = ref.get("msg")
+            own = own_result_findings(tpl, o)
+            out.append((text, df, detail, findings, own, o["status"]))
+    finally:
+        if sess is not None:
+            sess.close()
     return out
 
 
@@ -708,7 +801,7 @@ def _emit(acc, clause_root, tpl, groups, ref_text):
 def run(ctx: core.Ctx):
     ctx.rule = (
         "every statement template x every case re-spelling of its foldable tokens (quick: 4 whole-statement forms + "
-        "every single token in 3 forms; thorough: + all 2^t lower/UPPER assignments for t<=10, single+pair flips "
+        "every single token in UPPER; thorough: + every single token Capitalised/alternating, all 2^t lower/UPPER assignments for t<=10, single+pair flips "
         "above) x every quoted/unquoted re-spelling of its marked names, each on a fresh instance after the fixed "
         "prelude and followed by the fixed postlude; compared facet by facet with the all-lower spelling; reporting "
         "sweep over every name-carrying surface in the four whole-statement spellings. non-trivial = executed "
@@ -776,8 +869,12 @@ def replay(payload):
     tid, text = r["template"], r["sql"]
     tpl = TPL[tid]
     ref_text = r.get("reference_sql") or R.render(R.lex(tpl.sql), "l")
-    ref, _ = execute(tid, ref_text)
-    o, findings = execute(tid, text, sweep=bool(r.get("sweep")))
+    ref, _, s0 = execute(tid, ref_text)
+    if s0 is not None:
+        s0.close()
+    o, findings, s1 = execute(tid, text, sweep=bool(r.get("sweep")))
+    if s1 is not None:
+        s1.close()
     df = diff_facets(ref, o)
     print("template :", tid)
     print("reference:", ref_text)
